@@ -591,6 +591,43 @@ func runSweepRace(c *caseIn) *caseOut {
 	return out
 }
 
+// one address drains its bucket, then c.Keys OTHER distinct addresses each make a request (a crowd, or one attacker
+// with many source addresses), then the first address asks again within the refill time: Admitted[0] = requests of the
+// limited address let through in total, ElapsedNs[0] = from its first to its last request
+func runCrowd(c *caseIn) *caseOut {
+	ctx, cancel := context.WithCancel(context.Background())
+	defer cancel()
+	rc := &security.RateLimitConfig{Rate: c.Cfg.Rate, Burst: c.Cfg.Burst, TTL: time.Duration(c.Cfg.TTLMs) * time.Millisecond}
+	rc2 := *rc
+	r := security.NewRateLimiter(rc, &rc2, ctx)
+	out := &caseOut{Kind: "crowd"}
+	x := "198.51.100.77"
+	call := func(k string) bool {
+		if c.Entry == "allowtunnel" {
+			return r.AllowTunnel(k, 1)
+		}
+		return r.AllowIP(k)
+	}
+	n := 0
+	t0 := time.Now()
+	for i := 0; i < c.Cfg.Burst+2; i++ {
+		if call(x) {
+			n++
+		}
+	}
+	for i := 0; i < c.Keys; i++ {
+		call(fmt.Sprintf("11.%d.%d.%d", (i>>16)&255, (i>>8)&255, i&255))
+	}
+	for i := 0; i < c.Cfg.Burst+2; i++ {
+		if call(x) {
+			n++
+		}
+	}
+	out.Admitted = []int{n}
+	out.ElapsedNs = []int64{int64(time.Since(t0))}
+	return out
+}
+
 // strAddr is what adapters that do not hand out *net.TCPAddr / *net.UDPAddr give to the handler: only String()
 type strAddr string
 
@@ -672,6 +709,8 @@ func runCase(raw []byte) *caseOut {
 		return runBurst(&c)
 	case "shadow":
 		return runShadow(&c)
+	case "crowd":
+		return runCrowd(&c)
 	case "sweeprace":
 		return runSweepRace(&c)
 	case "addr":
